@@ -71,6 +71,13 @@ CORPUS = {
         "cfg | T0: anew 0; aclone 0 1; spawn 1; aclone 0 2; join 1; adrop 2 | T1: acount 1; adrop 1; acount 0",
         "cfg | T0: anew 0; aclone 0 1; aclone 0 2; spawn 1; spawn 2; adrop 0; join 1; join 2 | T1: acount 1; adrop 1 | T2: aclone 2 3; adrop 3; adrop 2",
     ],
+    "C11": [
+        # an inspection racing with a drop after an earlier, ordered drop of another handle
+        "cfg  | T0: anew 0; aclone 0 1; aclone 0 2; adrop 2; spawn 1; spawn 2; join 1; join 2; adrop 0 | T1: acount 0 | T2: adrop 1",
+        "cfg  | T0: anew 0; aclone 0 1; aclone 0 2; adrop 2; spawn 1; spawn 2; join 1; join 2; adrop 0 | T1: adrop 1 | T2: acount 0",
+        "cfg  | T0: anew 0; aclone 0 1; aclone 0 2; agetmut 2; adrop 2; spawn 1; spawn 2; join 1; join 2; adrop 0 | T1: acount 0 | T2: adrop 1",
+        "cfg  | T0: anew 0; aclone 0 1; spawn 1; spawn 2; join 1; join 2; adrop 0 | T1: acount 0 | T2: adrop 1",
+    ],
     "C15": [
         # a load / RMW directly followed by a possibly spurious Notify::wait, with preemptions before and after
         "cfg x=1 n=1 m=1 c=1 | T0: spawn 1; lock 0; crd 0; unlock 0; nnotify 0; ld 0 rlx; ifeq 1 v:0 1; nwait 0; lock 0; crd 0; unlock 0; join 1 | T1: lock 0; cwr 0 1; unlock 0; lock 0; cwr 0 2; unlock 0; lock 0; cwr 0 3; unlock 0",
@@ -84,6 +91,9 @@ CORPUS = {
         "cfg x=2 | T0: spawn 1; st 0 1 rlx; st 1 1 rlx; join 1; fence sc | T1: fence sc; ld 1 rlx; ld 0 rlx",
     ],
     "C08": [
+        # two early unparks from two threads, both stored before the park: the park must receive what BOTH published
+        "cfg c=2 x=1 | T0: spawn 1; spawn 2; ld 0 rlx; ifeq 1 v:2 3; park; crd 0; crd 1; join 1; join 2 | T1: cwr 0 1; unpark 0; fadd 0 1 rlx | T2: cwr 1 1; unpark 0; fadd 0 1 rlx",
+        "cfg c=2 x=1 | T0: spawn 1; ld 0 rlx; ifeq 1 v:2 3; park; crd 0; crd 1; join 1 | T1: cwr 0 1; unpark 0; fadd 0 1 rlx; cwr 1 1; unpark 0; fadd 0 1 rlx",
         # an unpark orders nothing until a park consumes it (F17, repaired); a stored unpark is not a condvar
         # notification (F15, repaired)
         "cfg c=1 | T0: spawn 1; cwr 0 1; unpark 1; join 1 | T1: crd 0",
